@@ -905,10 +905,15 @@ func workerC14(cfg WorkerCfg) int {
 	// the lenient variant first, the other half the strict one, so that anything
 	// the library remembers per expression text across objects shows up as a
 	// disagreement between processes.
-	for i := 0; i < 20; i++ {
+	for i := 0; i < 80; i++ {
 		strict := GenC14Case(cfg.Seed, 5000000+i)
 		strict.Obj.Opts.Unknown = ""
 		strict.Prelude = nil
+		if strict.Obj.Kind == "evaluator" && i%2 == 0 {
+			// make the option matter: a selector that no datum has decides the outcome
+			// (unknown value 1 -> true; no unknown value -> an error or false)
+			strict.Obj.Expr = "( " + strict.Obj.Expr + " ) or zz_missing == 1"
+		}
 		lenient := strict
 		lenient.Obj.Opts.Unknown = "int:1"
 		pair := []C14Case{strict, lenient}
